@@ -78,6 +78,10 @@ pub enum Case {
         #[serde(default)]
         tag_mut: u8,
     },
+    /// the signer's own entropy source (MyKeysManager) as the nonce source: two process lifetimes
+    /// (same seed, different starting time) must not produce the same nonce sequence, or a reply
+    /// recorded in one lifetime verifies in the next
+    Entropy { seed: [u8; 32], t1: (u64, u32), t2: (u64, u32), k: u8, ldk: bool },
 }
 
 fn key_strat() -> impl Strategy<Value = String> {
@@ -529,6 +533,50 @@ impl C17 {
         Ok(())
     }
 
+    fn run_entropy(&self, seed: &[u8; 32], t1: (u64, u32), t2: (u64, u32), k: u8, ldk: bool, st: &mut CaseStats, ctx: &Ctx) -> Result<(), Violation> {
+        use lightning_signer::bitcoin::Network;
+        use lightning_signer::signer::derive::KeyDerivationStyle;
+        use lightning_signer::signer::my_keys_manager::MyKeysManager;
+        use lightning_signer::signer::StartingTimeFactory;
+        use lightning_signer::SendSync;
+        struct Fixed(u64, u32);
+        impl SendSync for Fixed {}
+        impl StartingTimeFactory for Fixed {
+            fn starting_time(&self) -> (u64, u32) {
+                (self.0, self.1)
+            }
+        }
+        let style = if ldk { KeyDerivationStyle::Ldk } else { KeyDerivationStyle::Native };
+        let km1 = MyKeysManager::new(style, seed, Network::Testnet, &Fixed(t1.0, t1.1));
+        let km2 = MyKeysManager::new(style, seed, Network::Testnet, &Fixed(t2.0, t2.1));
+        let secret = [7u8; 32];
+        let mut h1 = ExternalPersistHelper::new(secret);
+        let mut h2 = ExternalPersistHelper::new(secret);
+        let mut n1 = [0u8; 32];
+        let mut n2 = [0u8; 32];
+        for _ in 0..=k {
+            n1 = h1.new_nonce(&km1);
+            n2 = h2.new_nonce(&km2);
+        }
+        st.class(format!("entropy:{}", if t1 == t2 { "same-start" } else { "different-start" }));
+        if t1 != t2 {
+            if n1 == n2 {
+                return ctx.report(st, Violation::new(
+                    "C17:nonce:entropy-repeats-across-restarts",
+                    format!("two signer lifetimes with the same seed and starting times {:?} / {:?} produce the same read nonce at index {}: a reply recorded in the first lifetime verifies in the second", t1, t2, k),
+                ));
+            }
+            // and the recorded reply of lifetime 1 is refused in lifetime 2
+            let recs: Vec<Rec> = vec![("k".to_string(), 1, vec![1, 2, 3])];
+            let resp = self.tag(&secret, &n1, &recs, false);
+            if h2.check_hmac(&muts(&recs), resp) {
+                return ctx.report(st, Violation::new("C17:nonce:replay-accepted-across-restarts", "a reply recorded before the restart was accepted after it".to_string()));
+            }
+            st.nontrivial_shape(("entropy", k, ldk, t1.0 == t2.0));
+        }
+        Ok(())
+    }
+
     #[allow(clippy::too_many_arguments)]
     fn run_nonce(&self, secret: &[u8; 32], recs: &[Rec], n1: &[u8; 32], n2: &[u8; 32], tamper: &STamper, which: u8, tag_mut: u8, st: &mut CaseStats, ctx: &Ctx) -> Result<(), Violation> {
         let recs: Vec<Rec> = recs.iter().map(|(k, v, val)| (k.clone(), *v & (u64::MAX >> 1), val.clone())).collect();
@@ -653,6 +701,8 @@ impl Prop for C17 {
                 .prop_map(|(secret, recs, tamper, lss_impl, server_tag)| Case::Shared { secret, recs, tamper, lss_impl, server_tag }),
             2 => (secret32, proptest::collection::vec(rec_strat(), 0..4), any::<[u8; 32]>(), any::<[u8; 32]>(), stamper_strat(), any::<u8>(), prop_oneof![1 => Just(0u8), 1 => 1u8..9])
                 .prop_map(|(secret, recs, n1, n2, tamper, which, tag_mut)| Case::Nonce { secret, recs, n1, n2, tamper, which, tag_mut }),
+            1 => (any::<[u8; 32]>(), (0u64..4, 0u32..3), (0u64..4, 0u32..3), 0u8..4, any::<bool>())
+                .prop_map(|(seed, t1, t2, k, ldk)| Case::Entropy { seed, t1: (1_700_000_000 + t1.0, t1.1), t2: (1_700_000_000 + t2.0, t2.1), k, ldk }),
         ]
         .boxed()
     }
@@ -662,6 +712,7 @@ impl Prop for C17 {
             Case::Value { secret, key, version, value, tamper, crypt } => self.run_value(secret, key, *version, value, tamper, *crypt, st, ctx),
             Case::Shared { secret, recs, tamper, lss_impl, server_tag } => self.run_shared(secret, recs, tamper, *lss_impl, *server_tag, st, ctx),
             Case::Nonce { secret, recs, n1, n2, tamper, which, tag_mut } => self.run_nonce(secret, recs, n1, n2, tamper, *which, *tag_mut, st, ctx),
+            Case::Entropy { seed, t1, t2, k, ldk } => self.run_entropy(seed, *t1, *t2, *k, *ldk, st, ctx),
         }
     }
     fn min_nontrivial(&self, tier: Tier) -> usize {
